@@ -104,7 +104,8 @@ Definition found_in (ty : etype) (c : etree) : Prop :=
   exists v idx, find_sub_element T ty (e_name c) v = Val (Some (e_type c, idx)).
 Inductive linked : etree -> Prop :=
 | linked_node n ty a content cm :
-    (forall c, In (inl c) content -> found_in ty c /\ linked c) -> linked (ENode n ty a content cm).
+    (forall c, In (inl c) content -> found_in ty c) -> (forall c, In (inl c) content -> linked c) ->
+    linked (ENode n ty a content cm).
 
 (* an element whose type has no sub-element range has no sub-elements *)
 Definition leaf_type (ty : etype) : bool :=
@@ -189,7 +190,7 @@ Qed.
 
 Lemma linked_leaf n ty a content cm : linked (ENode n ty a content cm) -> leaf_type ty = true -> forall c, ~ In (inl c) content.
 Proof.
-  intros L LT c I. inversion L as [n0 ty0 a0 c0 cm0 H]; subst. destruct (H c I) as [(v & idx & F) _]. exact (leaf_no_sub _ _ _ _ LT F).
+  intros L LT c I. inversion L as [n0 ty0 a0 c0 cm0 H H2]; subst. destruct (H c I) as (v & idx & F). exact (leaf_no_sub _ _ _ _ LT F).
 Qed.
 
 (* ----- the loop ----- *)
@@ -303,7 +304,7 @@ Lemma parse_element_records fuel lfuel : rec_ok (PE fuel lfuel).
 Proof.
   induction fuel as [|f IH]; intros n ty a c p ps st sub st' H; [discriminate H|]. cbn [parse_element] in H.
   destruct (pe_loop_records _ IH _ _ _ _ _ _ _ _ _ _ _ _ _ _ H) as (more & -> & ID & RF & LC). cbn [app List.length] in *.
-  split; [exact ID|]. split; [exact RF|]. split; [constructor; assumption|split; reflexivity].
+  split; [exact ID|]. split; [exact RF|]. split; [constructor; intros c0 I0; apply (LC c0 I0)|split; reflexivity].
 Qed.
 
 Theorem load_records bs t st :
